@@ -894,11 +894,18 @@ fn exec_run(seed: &Seed, bytes: &[u8], bit: u8, scratch: &Path) -> RunOut {
     RunOut { bit, class, viol, ms, diag }
 }
 
-/// CPU time consumed by the calling thread so far, ms (Linux scheduler statistics)
+/// CPU time consumed by the calling thread so far, ms (Linux scheduler statistics; one pread on a kept-open handle)
 fn thread_cpu_ms() -> Option<u64> {
-    let s = std::fs::read_to_string("/proc/thread-self/schedstat").ok()?;
-    let ns: u64 = s.split_whitespace().next()?.parse().ok()?;
-    Some(ns / 1_000_000)
+    use std::os::unix::fs::FileExt;
+    thread_local! { static F: Option<std::fs::File> = std::fs::File::open("/proc/thread-self/schedstat").ok(); }
+    F.with(|f| {
+        let f = f.as_ref()?;
+        let mut buf = [0u8; 64];
+        let n = f.read_at(&mut buf, 0).ok()?;
+        let s = std::str::from_utf8(&buf[..n]).ok()?;
+        let ns: u64 = s.split_whitespace().next()?.parse().ok()?;
+        Some(ns / 1_000_000)
+    })
 }
 
 fn vm_hwm_mb() -> Option<u64> {
@@ -1233,6 +1240,8 @@ struct Agg {
     panic_sites: BTreeMap<String, BTreeMap<String, (u64, u64, String, String, String)>>,
     /// slowest runs seen: (ms, seed, fault, run)
     slowest: Vec<(u64, String, String, String)>,
+    /// "<format>:<abort|timeout|slow|memory>" -> count
+    resource_kinds: BTreeMap<String, u64>,
 }
 
 fn hex(b: &[u8]) -> String { b.iter().map(|x| format!("{x:02x}")).collect() }
@@ -1251,7 +1260,7 @@ fn witness(seeds: &[Seed], c: &Case, class: &str, run: &str, kind: &str, extra: 
 impl Agg {
     fn new(nseeds: usize) -> Agg {
         Agg { evaluations: 0, transitions: 0, nontrivial: 0, outcomes: BTreeMap::new(), viols: BTreeMap::new(), seed_class: vec![BTreeMap::new(); nseeds],
-              slow_unconfirmed: 0, broken: 0, max_ms: 0, panic_sites: BTreeMap::new(), slowest: vec![] }
+              slow_unconfirmed: 0, broken: 0, max_ms: 0, panic_sites: BTreeMap::new(), slowest: vec![], resource_kinds: BTreeMap::new() }
     }
     fn violation(&mut self, sig: String, id: u64, detail: impl FnOnce() -> Value) {
         match self.viols.get_mut(&sig) {
@@ -1337,14 +1346,16 @@ pub fn run(tier: &str) -> Report {
                             let one = Case { runs: rr.bit, ..c.clone() };
                             let again = if slow_confirmed { Some(rr.ms) } else { match run_isolated(tier, &digest, &case_line(&one)) { Iso::Result(CaseResult::Done { runs, .. }) => runs.first().map(|x| x.ms), Iso::Timeout => Some(u64::MAX), _ => None } };
                             if again.map_or(false, |ms| ms > SLOW_MS) {
-                                agg.violation(format!("C16:{fmt}:slow:{class}"), c.id, || witness(&seeds, c, &class, run_label(rr.bit), "slow", json!({"ms": [rr.ms, again]})));
+                                *agg.resource_kinds.entry(format!("{fmt}:slow")).or_insert(0) += 1;
+                                agg.violation(format!("C16:{fmt}:time-or-memory:{class}"), c.id, || witness(&seeds, c, &class, run_label(rr.bit), "slow", json!({"cpu_ms": [rr.ms, again], "budget_ms": SLOW_MS})));
                             } else { agg.slow_unconfirmed += 1; }
                         }
                     }
                     if let Some(mb) = hwm_mb {
                         let again = match run_isolated(tier, &digest, &case_line(c)) { Iso::Result(CaseResult::Done { hwm_mb, .. }) => hwm_mb, _ => None };
                         if again.is_some() {
-                            agg.violation(format!("C16:{fmt}:memory:{class}"), c.id, || witness(&seeds, c, &class, "all", "memory", json!({"peak_rss_mb": [mb, again]})));
+                            *agg.resource_kinds.entry(format!("{fmt}:memory")).or_insert(0) += 1;
+                            agg.violation(format!("C16:{fmt}:time-or-memory:{class}"), c.id, || witness(&seeds, c, &class, "all", "memory", json!({"peak_rss_mb": [mb, again], "limit_mb": RSS_LIMIT_MB})));
                         }
                     }
                 },
@@ -1353,7 +1364,11 @@ pub fn run(tier: &str) -> Report {
                     *agg.outcomes.entry(format!("{fmt}|worker|{kind}")).or_insert(0) += 1;
                     default_class = Some(kind.to_string());
                     let runs: Vec<&str> = RUNS.iter().filter(|r| c.runs & r.0 != 0).map(|r| r.1).collect();
-                    agg.violation(format!("C16:{fmt}:{kind}:{class}"), c.id, || witness(&seeds, c, &class, &runs.join(","), kind, json!({"death": info})));
+                    *agg.resource_kinds.entry(format!("{fmt}:{kind}")).or_insert(0) += 1;
+                    // a worker death is `abort`; no answer within the timeout is folded with slow / peak-RSS cases (which of the
+                    // three is observed for one root cause depends on machine speed)
+                    let sig_kind = if kind == "timeout" { "time-or-memory" } else { kind };
+                    agg.violation(format!("C16:{fmt}:{sig_kind}:{class}"), c.id, || witness(&seeds, c, &class, &runs.join(","), kind, json!({"death": info})));
                 },
                 CaseResult::Broken(e) => { agg.broken += 1; if agg.broken <= 5 { rep.machinery_errors.push(format!("case {} ({}): {e}", c.id, fault_to_string(&c.ops))); } },
             }
@@ -1437,6 +1452,7 @@ pub fn run(tier: &str) -> Report {
     }
     rep.extra.insert("failure_counts".into(), Value::Object(counts));
     rep.extra.insert("panic_sites".into(), json!(agg.panic_sites.iter().map(|(sig, sites)| (sig.clone(), json!(sites.iter().map(|(site, v)| json!({"site": site, "count": v.0, "seed": v.2, "fault": v.3, "run": v.4})).collect::<Vec<_>>()))).collect::<serde_json::Map<_, _>>()));
+    rep.extra.insert("resource_kinds".into(), json!(agg.resource_kinds));
     rep.extra.insert("slowest_runs".into(), json!(agg.slowest.iter().map(|x| json!({"ms": x.0, "seed": x.1, "fault": x.2, "run": x.3})).collect::<Vec<_>>()));
     rep.extra.insert("seeds".into(), json!(seeds.iter().enumerate().map(|(i, s)| json!({"name": s.name, "format": s.fmt(), "game": s.game.as_str(), "len": s.bytes.len(), "fields": gen.states[i].fields.len(), "baseline": agg.seed_class[i].get(&RUN_DEFAULT)})).collect::<Vec<_>>()));
     rep.extra.insert("workers".into(), json!({"n": pool.slots.len(), "spawned": pool.respawns.load(Ordering::Relaxed), "address_space_limit_kib": ULIMIT_V_KIB, "answer_timeout_s": ANSWER_TIMEOUT.as_secs(), "slow_unconfirmed": agg.slow_unconfirmed, "max_run_ms": agg.max_ms}));
@@ -1456,10 +1472,10 @@ pub fn run(tier: &str) -> Report {
     rep.assumptions = vec![
         "the fault space is the enumerated one (single faults, and pairs of field faults in the thorough tier), not all byte strings".into(),
         "in-process drivers mirror cli_def::*::run (core mapfile of the game, no user mapfiles); dev-profile semantics (overflow checks, debug assertions) define 'panic'".into(),
-        format!("memory is judged by worker death under an {} GiB address-space limit and by peak RSS > {} MiB; time by {} s per run (inputs < 4 KiB) and {} s without an answer", ULIMIT_V_KIB >> 20, RSS_LIMIT_MB, SLOW_MS / 1000, ANSWER_TIMEOUT.as_secs()),
+        format!("memory is judged by worker death under an {} GiB address-space limit and by peak RSS > {} MiB; time by {} s of CPU time per run (inputs < 4 KiB) and {} s without an answer; time/RSS cases are confirmed in a fresh worker and share the signature class time-or-memory", ULIMIT_V_KIB >> 20, RSS_LIMIT_MB, SLOW_MS / 1000, ANSWER_TIMEOUT.as_secs()),
         "stack-based TH10+ ECL has no independent walker: byte faults and truncations only".into(),
     ];
-    rep.explanation = "Every enumerated fault of every seed was applied and the real reader + decompiler (4 option sets) + ANM image extraction were run on it in isolated worker processes; a violation is a panic, a worker death/timeout reproduced in a fresh worker, an Err without an error-severity diagnostic, or an error diagnostic that does not name the input file. One failure is reported per signature with the first (smallest-seed) witness; per-signature counts are in failure_counts.".into();
+    rep.explanation = "Every enumerated fault of every seed was applied and the real reader + decompiler (4 option sets) + ANM image extraction were run on it in isolated worker processes; a violation is a panic, a worker death (abort) or timeout / over-budget run / RSS blow-up (time-or-memory) reproduced in a fresh worker, an Err without an error-severity diagnostic, or an error diagnostic that does not name the input file. One failure is reported per signature with the first (smallest-seed) witness; per-signature counts are in failure_counts.".into();
     rep
 }
 
